@@ -1330,11 +1330,21 @@ func (r *Run) callBuiltin(fr *frame, name string, args []Value) Value {
 			return r.strLen(x.S)
 		case Ptr:
 			return IntV{C: uint64(len((*x).(Array)))}
+		case *ChanV:
+			if x == nil {
+				return IntV{}
+			}
+			return IntV{C: uint64(len(x.buf))} // the values buffered at this instant of the explored schedule
 		}
 	case "cap":
 		switch x := args[0].(type) {
 		case SliceV:
 			return IntV{C: uint64(cap(x.Data))}
+		case *ChanV:
+			if x == nil {
+				return IntV{}
+			}
+			return IntV{C: uint64(x.cap)}
 		}
 	case "append":
 		s := args[0].(SliceV)
